@@ -210,6 +210,24 @@ CHECKS.update({
         ref="4/C19"),
 })
 
+CHECKS.update({
+    "C07": dict(
+        technique="Lean 4 proof (effect-trace model of TsDB.export, common-time diagnosis, friendly names, record-level codecs over any ordered field) + exact Rat correspondence (decision, create_common_time, names, observed export trace, codec text/words) + end-to-end export→fromfile round trips",
+        text="Theorems: existing target with exist_ok=False → only a raise; every raise is the last effect and nothing before it opens/writes "
+             "the target; whatever is written is, per selected series in order and under distinct export-friendly names, exactly "
+             "get(**kwargs) of that series and all written time arrays agree with the first within the final comparison (all "
+             "databases/options); forced common time = create_common_time, inside every span; is_common ⇒ equal arrays for uniform series "
+             "(no options), equal windowed arrays on one lattice (PARTIAL) and one resampling grid for a step (any sampling), with "
+             "machine-checked counterexamples off these premises (F9b shape, off-lattice window); key file / direct-access words / ascii "
+             "header+rows / pickle frame / h5 start+delta round trips under explicit representability predicates, with counterexamples "
+             "F19, F30. Tied by correspondence of _check_time_arrays, is_common_time, create_common_time, friendly names, the observed "
+             "writer/records/exception of export (internal steps soft), and the codec text/words against files written by the real "
+             "writers; round trips for 4 formats × options × in-memory/file-backed sources at float32 / 7-digit / exact / n·eps "
+             "precision; target bytes+mtime snapshots for refused exports.",
+        note=TB + "Number formatting (float32, %15.7g), pandas, h5py and the byte layout are exercised by the round trips only; names restricted to the formats' representable alphabets; >=2 samples per series; known findings F19, F30 (F19b, F31, F32 fixed).",
+        ref="4/C07"),
+})
+
 NOT_YET = {}
 
 PROPS = [json.loads(l) for l in open(os.path.join(HERE, "properties.jsonl"))]
